@@ -1,6 +1,7 @@
 package props
 
 import (
+	"bytes"
 	"encoding/json"
 	"fmt"
 	"os"
@@ -72,6 +73,7 @@ type CGOp struct {
 type CGProc struct {
 	Schedule sim.Schedule `json:"schedule"`
 	Ops      []CGOp       `json:"ops"`
+	Parallel bool         `json:"parallel,omitempty"` // GOMAXPROCS=8
 }
 
 // CGCliStep is one `coca call` / `coca rcall` command line run against a model file.
@@ -91,6 +93,9 @@ type CGCliStep struct {
 	ViaLink bool `json:"via_link,omitempty"`
 	// ViaPipe: the model file named with -d is a named pipe that delivers the model's bytes
 	ViaPipe bool `json:"via_pipe,omitempty"`
+	// Padded > 0: the model file is a copy made larger than Padded MiB by one extra method-less class
+	// with a very long FilePath (model files of big code bases reach tens of MiB)
+	Padded int `json:"padded,omitempty"`
 }
 
 type CGScenario struct {
@@ -143,6 +148,12 @@ func genCollisionModel(t *tape.Tape) []MClass {
 // one-method classes with a few drawn extra calls.
 func genScaleModel(t *tape.Tape) []MClass {
 	n := t.Int(1001, 1150)
+	switch t.Pick(4) {
+	case 0:
+		n = t.Int(2049, 2120) // around the next powers of two; class counts that are no multiple of 8 or 16
+	case 1:
+		n = t.Int(4097, 4110)
+	}
 	model := make([]MClass, n)
 	for i := 0; i < n; i++ {
 		model[i] = MClass{NodeName: fmt.Sprintf("K%04d", i), Package: "big", Type: "Class", Functions: []MFunc{{Name: "m0"}}}
@@ -161,6 +172,9 @@ func genScaleModel(t *tape.Tape) []MClass {
 // the callers being called from a few entry methods: counts around the usual small thresholds.
 func genFanInModel(t *tape.Tape) []MClass {
 	n := t.Int(25, 40)
+	if t.Bool(1, 6) {
+		n = []int{1030, 2060, 4100}[t.Pick(3)] + t.Pick(40) // a utility called from thousands of places
+	}
 	util := MClass{NodeName: "Util", Package: "fan", Type: "Class", Functions: []MFunc{{Name: "fmt"}}}
 	entry := MClass{NodeName: "Entry", Package: "fan", Type: "Class", Functions: []MFunc{{Name: "main"}, {Name: "batch"}}}
 	model := []MClass{util, entry}
@@ -369,6 +383,13 @@ func declaredMethods(model []MClass) []string {
 
 func pickRoot(t *tape.Tape, model []MClass) string {
 	decl := declaredMethods(model)
+	if len(model) > 20 && model[0].Package == "fan" && t.Bool(1, 2) {
+		return "fan.Util.fmt" // the hub of the fan-in model
+	}
+	if len(model) > 1000 && t.Bool(1, 2) {
+		// large models: the classes at the very end of the model (a remainder of any sharding)
+		return decl[len(decl)-1-t.Pick(12)]
+	}
 	switch k := t.Pick(12); {
 	case k == 9:
 		return "no.Such.method" // absent root
@@ -406,7 +427,11 @@ func genCGScenario(t *tape.Tape, tier string) *CGScenario {
 		} else {
 			t.Seed64()
 		}
+		proc.Parallel = t.Bool(1, 6)
 		nops := t.Int(1, maxOps)
+		if t.Bool(1, 25) {
+			nops = t.Int(15, 30) // a long-lived process: whatever accumulates per operation gets time to show
+		}
 		for o := 0; o < nops; o++ {
 			mi := t.Pick(len(sc.Models))
 			model := sc.Models[mi]
@@ -476,6 +501,9 @@ func genCGScenario(t *tape.Tape, tier string) *CGScenario {
 					st.Sparse = false
 				} else if t.Bool(1, 4) {
 					st.ViaPipe = true
+				}
+				if t.Bool(1, 300) {
+					st.Padded = []int{17, 65}[t.Pick(2)]
 				}
 				steps = append(steps, st)
 			}
@@ -809,7 +837,10 @@ func runCG(id string, ctx *sim.RunCtx, data json.RawMessage) (*sim.Outcome, erro
 	var hist []string
 	judgedOnDirty := 0
 	for pi, p := range sc.Procs {
-		proc := &sim.Proc{Schedule: p.Schedule, Cwd: ctx.Dir}
+		proc := &sim.Proc{Schedule: p.Schedule, Cwd: ctx.Dir, Parallel: p.Parallel}
+		if p.Parallel {
+			out.Faults["real-parallelism"]++
+		}
 		for _, op := range p.Ops {
 			switch op.Kind {
 			case "call":
@@ -1001,6 +1032,20 @@ func runCG(id string, ctx *sim.RunCtx, data json.RawMessage) (*sim.Outcome, erro
 				if s.ViaLink {
 					file = fmt.Sprintf("link/../via%d.json", s.Model)
 					out.Faults["path-through-symlink-and-dotdot"]++
+				}
+				if s.Padded > 0 && !s.UseDefault && !s.ViaLink {
+					padded := fmt.Sprintf("padded%d_%d.json", s.Model, s.Padded)
+					if _, err := os.Stat(filepath.Join(cwd, padded)); err != nil {
+						if raw, err := os.ReadFile(filepath.Join(cwd, file)); err == nil {
+							// every key the other classes carry is present (a decoder that reuses a long-lived variable keeps what a missing key leaves untouched)
+							pad := `[{"NodeName":"Pad","Package":"pad","Type":"Class","Functions":null,"FilePath":"` + strings.Repeat("p", s.Padded<<20) + `"},`
+							os.WriteFile(filepath.Join(cwd, padded), append([]byte(pad), bytes.TrimLeft(raw, " \t\r\n")[1:]...), 0644)
+						}
+					}
+					if _, err := os.Stat(filepath.Join(cwd, padded)); err == nil {
+						file = padded
+						out.Faults["model-file-of-tens-of-MiB"]++
+					}
 				}
 				var fifo interface{}
 				if s.ViaPipe && !s.UseDefault && !s.ViaLink {
